@@ -820,3 +820,122 @@ func sortedKeys(m map[string]map[int]string) []string {
 	sort.Strings(ks)
 	return ks
 }
+
+// C19.empty-in-empty-out: a necessary condition only. For every exported function of xslices that takes a slice and returns a
+// slice: if EVERY value it can return is provably non-empty - append(x, e) with at least one explicit element, a composite
+// literal with elements, make with a positive constant length - then the empty input is answered with a non-empty result.
+// (That the result is right for non-empty inputs is not decided here.)
+func ruleEmptyInEmptyOut(c *Ctx, r *R) {
+	sp := c.SSA["xslices"]
+	if sp == nil {
+		r.undecided("xslices|missing", token.NoPos, "package not found")
+		return
+	}
+	var names []string
+	for n, m := range sp.Members {
+		if f, ok := m.(*ssa.Function); ok && token.IsExported(n) && f.Blocks != nil {
+			names = append(names, n)
+		}
+	}
+	sort.Strings(names)
+	for _, n := range names {
+		fn := sp.Members[n].(*ssa.Function)
+		res := fn.Signature.Results()
+		if res.Len() != 1 {
+			continue
+		}
+		if _, ok := res.At(0).Type().Underlying().(*types.Slice); !ok {
+			continue
+		}
+		takesSlice := false
+		for _, p := range fn.Params {
+			if _, ok := p.Type().Underlying().(*types.Slice); ok {
+				takesSlice = true
+			}
+		}
+		// a function that is given elements to add (Insert(s, i, vs...)) may rightly return a non-empty result for an empty s
+		elem := res.At(0).Type().Underlying().(*types.Slice).Elem()
+		addsElems := false
+		for i := 0; i < fn.Signature.Params().Len(); i++ {
+			pt := fn.Signature.Params().At(i).Type()
+			if _, isSl := pt.Underlying().(*types.Slice); types.Identical(pt, elem) && !isSl {
+				addsElems = true // (Chunk(s []T) [][]T is not such a function: its []T parameter is what gets cut up)
+			}
+			if fn.Signature.Variadic() && i == fn.Signature.Params().Len()-1 {
+				if st, ok := pt.Underlying().(*types.Slice); ok && types.Identical(st.Elem(), elem) {
+					addsElems = true
+				}
+			}
+		}
+		if !takesSlice || addsElems {
+			continue
+		}
+		nRet, nonEmpty := 0, 0
+		var pos token.Pos
+		instrs(fn, func(b *ssa.BasicBlock, i int, in ssa.Instruction) {
+			ret, ok := in.(*ssa.Return)
+			if !ok || len(ret.Results) != 1 {
+				return
+			}
+			nRet++
+			all := true
+			ls := valueLeaves(returnedValue(ret, 0), nil, 0)
+			for _, lf := range ls {
+				if !provablyNonEmptySlice(lf.v, 0) {
+					all = false
+				}
+			}
+			if all && len(ls) > 0 {
+				nonEmpty++
+				pos = retPos(ret)
+			}
+		})
+		if nRet == 0 {
+			continue
+		}
+		if pos == token.NoPos {
+			pos = fn.Pos()
+		}
+		r.ok(nonEmpty < nRet, "xslices."+n+"|can-return-empty", pos, "every value "+n+" can return has at least one element (an element is appended / the result is built with a positive length unconditionally): for an empty input the result must be empty")
+	}
+}
+
+// provablyNonEmptySlice: v certainly has len >= 1.
+func provablyNonEmptySlice(v ssa.Value, d int) bool {
+	if d > 4 {
+		return false
+	}
+	switch x := v.(type) {
+	case *ssa.Call:
+		if b, ok := x.Call.Value.(*ssa.Builtin); ok && b.Name() == "append" && len(x.Call.Args) == 2 {
+			// append(s, e1, …): the variadic part is a fresh array slice (new [k]T)[:] with k >= 1
+			if sl, ok := x.Call.Args[1].(*ssa.Slice); ok {
+				if al, ok := sl.X.(*ssa.Alloc); ok {
+					if at, ok := al.Type().Underlying().(*types.Pointer).Elem().Underlying().(*types.Array); ok && at.Len() >= 1 && sl.Low == nil && sl.High == nil {
+						return true
+					}
+				}
+			}
+			return provablyNonEmptySlice(x.Call.Args[0], d+1)
+		}
+	case *ssa.MakeSlice:
+		if k, ok := x.Len.(*ssa.Const); ok && k.Value != nil && k.Int64() >= 1 {
+			return true
+		}
+	case *ssa.Slice:
+		// a composite literal []T{a, b}: (new [k]T)[:]
+		if al, ok := x.X.(*ssa.Alloc); ok && x.Low == nil && x.High == nil {
+			if at, ok := al.Type().Underlying().(*types.Pointer).Elem().Underlying().(*types.Array); ok && at.Len() >= 1 {
+				return true
+			}
+		}
+	case *ssa.Phi:
+		for _, e := range x.Edges {
+			if e != ssa.Value(x) && !provablyNonEmptySlice(e, d+1) {
+				return false
+			}
+		}
+		return true
+	}
+	return false
+}
